@@ -84,7 +84,12 @@ type env struct {
 	bi   int
 	hist []json.RawMessage
 	rnd  *rand.Rand
+	vi   int // variants run so far (selects the read-buffer size)
 }
+
+// Read-buffer sizes of the tampered-session replays: mostly below streamReadMinBufferSize (65551), so that
+// the tunnel's internal read buffer and its left-over cursor are in play when a chunk is rejected.
+var readBufSizes = [...]int{4096, 1, 70000, 3, 65550}
 
 func chunkData(pat streamkit.Pattern, lo, n, val int) []byte {
 	if n == 2 && val >= 0 {
@@ -424,6 +429,7 @@ func (e *env) runVariant(ops, calls []action, choice map[int]int, check bool) {
 		t = append(t, f.b...)
 	}
 	e.res.Count("variants", 1)
+	e.vi++
 
 	// the reader
 	var rd netio.Conn
@@ -494,9 +500,9 @@ func (e *env) runVariant(ops, calls []action, choice map[int]int, check bool) {
 		}
 		return bounds[fi] == to
 	}
-	deliver := func(b []byte, what string) bool {
+	deliver := func(b []byte, what, key string) bool {
 		if delivered+len(b) > len(peer.plain) || !bytes.Equal(b, peer.plain[delivered:delivered+len(b)]) {
-			e.violation(keyAfter("stream.tamper/foreign-bytes-delivered"), desc,
+			e.violation(key, desc,
 				"%s returned %d bytes at position %d that are not the next bytes its genuine peer sent (%d sent)", what, len(b), delivered, len(peer.plain))
 			return false
 		}
@@ -532,8 +538,18 @@ func (e *env) runVariant(ops, calls []action, choice map[int]int, check bool) {
 				e.violation("stream.tamper/fallback-unconfigured", desc, "fallback request without a configured fallback")
 				return
 			}
-			if !bytes.Equal(sess.ReqPay, consumed) {
-				e.violation("stream.tamper/fallback-payload-altered", desc, "fallback payload (%d bytes) is not exactly the %d bytes received", len(sess.ReqPay), len(consumed))
+			// the request as the relay holds it: its Payload is written to the fallback destination only after
+			// the relay has dialled it, while the server keeps handling other connections
+			live := sess.Req.Payload
+			if !bytes.Equal(live, consumed) {
+				e.violation("stream.tamper/fallback-payload-altered", desc, "fallback payload (%d bytes) is not exactly the %d bytes received", len(live), len(consumed))
+				return
+			}
+			if other, ok := e.interfere(pv, desc); !ok {
+				return
+			} else if !bytes.Equal(live, consumed) {
+				e.violation("stream.tamper/fallback-payload-altered", desc,
+					"the fallback payload (%d bytes) no longer equals the bytes received on its connection after the same server handled %d other connections and a client dialled (payload held, not yet written to the fallback)", len(live), other)
 				return
 			}
 			if bytes.Equal(consumed, v.cipher[:min(len(consumed), len(v.cipher))]) && len(consumed) >= k.HdrSz && k.SameKey {
@@ -562,7 +578,7 @@ func (e *env) runVariant(ops, calls []action, choice map[int]int, check bool) {
 				e.violation("stream.tamper/request-user", desc, "request attributed to %q, the key belongs to %q", sess.Req.Username, peer.sess.Pair.Keys.UserName)
 				return
 			}
-			if !deliver(sess.ReqPay, "HandleStream") {
+			if !deliver(sess.ReqPay, "HandleStream", keyAfter("stream.tamper/foreign-bytes-delivered")) {
 				return
 			}
 			rd = sess.SConn
@@ -575,13 +591,22 @@ func (e *env) runVariant(ops, calls []action, choice map[int]int, check bool) {
 		}
 		e.res.Seen("ServerHandle/" + got)
 	}
-	// reads: those of the behaviour, then keep reading until end of stream or three failures in a row
-	buf := make([]byte, 70000)
-	for extra := 0; rd != nil && extra < 6; {
-		a, fromModel := nextCall()
-		if !fromModel {
-			extra++
+	// Reads: those of the behaviour, then keep reading (after failures, and after end of stream).  One model
+	// Read is one chunk; with a small buffer the tunnel serves the rest of the chunk from its left-over, so a
+	// real Read that consumes nothing from the transport and succeeds continues the previous one.
+	m := readBufSizes[(e.bi+e.vi)%len(readBufSizes)]
+	buf := make([]byte, m)
+	var last *action // model call of the current chunk
+	acc := 0         // bytes the current chunk has delivered
+	sawEOF := false
+	afterEOF := 0
+	checkCount := func() {
+		if last != nil && check && last.Out.Res == "data" && acc != last.Out.N {
+			e.drift("stream.tamper/model-read", desc, "a chunk delivered %d bytes, model expects %d", acc, last.Out.N)
 		}
+		last = nil
+	}
+	for reads, extra := 0, 0; rd != nil && reads < 96 && extra < 6; reads++ {
 		from := link.Rd
 		var n int
 		var rerr error
@@ -589,38 +614,146 @@ func (e *env) runVariant(ops, calls []action, choice map[int]int, check bool) {
 			e.violation("stream.tamper/panic", desc, "Read panicked: %v", p)
 			return
 		}
+		if link.Rd == from && rerr == nil {
+			// served from the tunnel's own buffer
+			if n == 0 {
+				extra++
+				continue
+			}
+			key := "stream.tamper/foreign-bytes-delivered"
+			switch {
+			case sawEOF:
+				key = "stream.tamper/data-after-eof"
+			case failedBefore:
+				key = "stream.tamper/stale-buffer-after-failed-read"
+			}
+			if !deliver(buf[:n], fmt.Sprintf("Read(%d) without touching the transport", m), key) {
+				return
+			}
+			acc += n
+			continue
+		}
+		checkCount()
+		a, fromModel := nextCall()
+		if !fromModel {
+			extra++
+		}
 		clean := consume(from)
 		got := classify(rerr)
 		if rerr == nil {
 			got = "data"
 		}
-		if n > 0 && !deliver(buf[:n], "Read") {
-			return
+		if n > 0 {
+			key := keyAfter("stream.tamper/foreign-bytes-delivered")
+			if sawEOF {
+				key = "stream.tamper/data-after-eof"
+			}
+			if !deliver(buf[:n], fmt.Sprintf("Read(%d)", m), key) {
+				return
+			}
 		}
 		if !clean && rerr == nil {
 			e.violation(keyAfter("stream.tamper/altered-data-accepted"), desc, "a Read that consumed altered ciphertext (stream offset %d..%d) succeeded with %d bytes (next genuine frame %d)", from, link.Rd, n, gid)
 			return
 		}
-		if fromModel && check && a.Out.Res != "dead" {
-			if got != a.Out.Res || (got == "data" && n != a.Out.N) {
-				e.drift("stream.tamper/model-read", desc, "Read: %s %d (%v), model expects %s %d", got, n, rerr, a.Out.Res, a.Out.N)
-			}
+		if fromModel && check && a.Out.Res != "dead" && got != a.Out.Res {
+			e.drift("stream.tamper/model-read", desc, "Read: %s %d (%v), model expects %s %d", got, n, rerr, a.Out.Res, a.Out.N)
 		}
-		e.res.Seen(fmt.Sprintf("Read/%s/after=%v", got, failedBefore))
-		if rerr != nil {
-			if rerr == io.EOF || got == "nodata" {
-				break
-			}
-			failedBefore = true
-			errStreak++
-			if errStreak >= 3 {
-				break
-			}
-		} else {
+		if fromModel && rerr == nil {
+			last, acc = &a, n
+		}
+		e.res.Seen(fmt.Sprintf("Read/%s/after=%v/buf=%d", got, failedBefore, m))
+		switch {
+		case rerr == nil:
 			errStreak = 0
+		case got == "nodata":
+			reads = 1 << 20
+		case rerr == io.EOF:
+			// end of stream is final too: nothing may follow it
+			sawEOF = true
+			if afterEOF++; afterEOF >= 3 {
+				reads = 1 << 20
+			}
+		default:
+			failedBefore = true
+			if errStreak++; errStreak >= 3 {
+				reads = 1 << 20
+			}
 		}
 	}
+	checkCount()
 	e.res.AddSteps(0, len(ops)+ci)
+}
+
+// interfere lets the server of pair p handle other connections (failing probes that go to the fallback, one
+// genuine session) and lets a client dial, as happens between HandleStream returning a request and the relay
+// consuming its payload.  Every fallback request produced on the way is itself held and checked at the end.
+func (e *env) interfere(p *streamkit.Pair, desc string) (handled int, ok bool) {
+	type held struct {
+		live []byte
+		sent []byte
+	}
+	var helds []held
+	probe := func(i int) bool {
+		sent := streamkit.Bytes(e.k.Seed+int64(e.bi), fmt.Sprintf("probe%d/%d", e.vi, i), 40+13*i)
+		l, r := streamkit.NewPair("probe")
+		l.Tx.Buf = sent
+		l.Tx.Arrived = len(sent)
+		l.Tx.Fin = true
+		var s streamkit.Session
+		s.Pair = p
+		var err error
+		if pv := guard(func() { err = s.HandleOn(p.Server, r) }); pv != nil {
+			e.violation("stream.tamper/panic", desc, "HandleStream of a probe connection panicked: %v", pv)
+			return false
+		}
+		handled++
+		if err == nil {
+			if !s.Req.Addr.Equals(streamkit.FallbackAddr) {
+				e.violation("stream.tamper/request-from-forgery", desc, "HandleStream produced a request from %d invented bytes", len(sent))
+				return false
+			}
+			helds = append(helds, held{s.Req.Payload, sent[:r.Rx.Rd]})
+		}
+		return true
+	}
+	if !probe(0) {
+		return handled, false
+	}
+	// a genuine session and one more dial
+	target, err := streamkit.Target(e.k.AddrLen, e.k.Seed, false)
+	if err != nil {
+		e.res.Break("%v", err)
+		return handled, false
+	}
+	var gs *streamkit.Session
+	if pv := guard(func() { gs, err = p.Dial(target, []byte("genuine initial payload")) }); pv != nil || err != nil {
+		e.violation("stream.tamper/genuine-session-failed", desc, "a genuine dial next to the attacked connection failed: %v %v", pv, err)
+		return handled, false
+	}
+	gs.TL.Tx.Deliver(-1)
+	if pv := guard(func() { err = gs.Handle() }); pv != nil || err != nil || gs.Req.Addr.Equals(streamkit.FallbackAddr) {
+		e.violation("stream.tamper/genuine-session-failed", desc, "a genuine handshake next to the attacked connection failed: %v %v", pv, err)
+		return handled, false
+	}
+	handled++
+	if _, err = p.Dial(target, nil); err != nil {
+		e.res.Break("dial: %v", err)
+		return handled, false
+	}
+	// a burst of probes, as a scanner produces
+	for i := 1; i <= 18; i++ {
+		if !probe(i) {
+			return handled, false
+		}
+	}
+	for i, h := range helds {
+		if !bytes.Equal(h.live, h.sent) {
+			e.violation("stream.tamper/fallback-payload-altered", desc, "the held fallback payload of probe connection %d (%d bytes) no longer equals the %d bytes it sent after later connections were handled", i, len(h.live), len(h.sent))
+			return handled, false
+		}
+	}
+	return handled, true
 }
 
 func guard(f func()) (p any) {
